@@ -8,7 +8,7 @@ notes = open(os.path.join(outdir, 'notes.md')).read() if os.path.exists(os.path.
 def one(diff):
     i = re.search(r'm(\d+)\.diff$', diff).group(1)
     demo = os.path.join(outdir, 'm%s_demo.py' % i)
-    p = subprocess.run(['/verif/tools/seedtest.py', diff, demo if os.path.exists(demo) else '-', prop] + extra, capture_output=True, text=True)
+    p = subprocess.run([os.path.join(os.path.dirname(os.path.abspath(__file__)), 'seedtest.py'), diff, demo if os.path.exists(demo) else '-', prop] + extra, capture_output=True, text=True)
     t = p.stdout
     r = json.loads(t[t.index('{'):])
     confirmed = r.get('applies') and r.get('baseline_ok') and r.get('demo_pristine_rc') == 0 and r.get('demo_patched_rc') not in (0, None)
